@@ -1151,6 +1151,11 @@ caption_command(vbi_decoder *vbi, struct caption *cc,
 
 				if (ch->col < ch->col1)
 					ch->col1 = ch->col;
+
+				/* The space word_break() put in front of
+				   the first column. */
+				if (1 == ch->col)
+					ch->line[0] = cc->transp_space[chan >> 2];
 			}
 
 			return;
@@ -1207,6 +1212,11 @@ caption_command(vbi_decoder *vbi, struct caption *cc,
 				ch->line[i] = cc->transp_space[chan >> 2];
 
 			word_break(cc, ch, 0);
+
+			/* The space word_break() put in front of
+			   the first column. */
+			if (1 == ch->col)
+				ch->line[0] = cc->transp_space[chan >> 2];
 
 			if (ch->mode != MODE_POP_ON) {
 				update(ch);
